@@ -4,12 +4,35 @@ import json, sys
 
 ENGINE = "gsx"
 CHECKS = {
+ "C38": dict(
+   text="The real SetMaximumBodySize and signAndEncrypt (with the policy constructors and key derivation they call) are executed symbolically with the chunk size a free variable over [8192, 2^31-1] and the chunk a symbolic-length byte sequence; the fit, block-alignment, MessageSize and plus-one-does-not-fit assertions are SMT queries (cvc5) decided for every chunk size at once.",
+   note="Bounds: all chunk sizes in [8192, 2^31-1], five symmetric policies x {Sign, SignAndEncrypt} and None. HMAC/AES idealised (lengths only matter). Outside: chunk sizes >= 2^31. Trusted: go/ssa, gsx, cvc5.",
+   ref="DESIGN.md §5 C38"),
+ "C07": dict(
+   text="Sizes: the real send path (SendMsgWithContext, newMessage, writeMessageChunks, EncodeChunks, signAndEncrypt, Conn.Write) runs with symbolic chunk size and a body of symbolic length; every frame written is checked (<= chunk size, MessageSize field == length, C/F marking, chunk count, bodies add up). RoundTrip: the wire bytes are fed into the peer's real receive path (Conn.Receive, readChunk, verifyAndDecrypt, mergeChunks, DecodeService) and the decoded message must equal the original for every body byte and nonce.",
+   note="Bounds: Sizes — all chunk sizes [8192, 2^31-1], bodies needing <= 2 (quick) / 4 (thorough) chunks, 11 policy/mode combinations; RoundTrip — chunk size 8192, body lengths around the chunk boundaries, all bytes symbolic. Crypto idealised (uninterpreted HMAC, AES-CBC as inverse pair). OPN/asymmetric chunk sizes are in C15. Trusted: go/ssa, gsx, cvc5.",
+   ref="DESIGN.md §5 C07"),
+ "C14": dict(
+   text="generateKeys and the five symmetric policy constructors are executed symbolically with both nonces arbitrary; every derived key/IV is compared with a reference P_SHA written from Part 6/RFC 5246 and the Part 7 length table, for both roles; HMAC is an uninterpreted function (Ackermann), additionally injective for the direction-separation query.",
+   note="Bounds: all five policies, nonces of the policy's length with every byte symbolic. Outside: the hash functions themselves; separation for Basic128Rsa15. Trusted: go/ssa, gsx, cvc5, the reference derivation in the harness.",
+   ref="DESIGN.md §5 C14"),
+ "C15": dict(
+   text="The asymmetric constructors and the RSAOAEP/PKCS1v15/RSAPSS block loops are executed symbolically: key sizes as free variables for the limit and length obligations, symbolic plaintext bytes for the round trip, RSA primitives replaced by their documented contracts.",
+   note="Bounds: key sizes 1..1024 bytes (limits), policy range (lengths), {min,max[,mid]} with plaintexts up to 2 blocks+1 (round trip). RSA itself is a contract stub (K-level for cryptographic strength). Trusted: go/ssa, gsx, cvc5, Part 7 table in the harness.",
+   ref="DESIGN.md §5 C15"),
+ "C24": dict(
+   text="SelectEndpoint (with sort.Sort / sort.Reverse from their SSA) is executed on lists of symbolic endpoints; result compared with a reference predicate (matches query, no matching endpoint has a higher level, error iff none matches).",
+   note="Bounds: lists of 0..3 (quick) / 0..4 (thorough) endpoints, any uint8 level, modes 0..3, policies from an enumerated set incl. empty and unknown; queries as short name or URI. Trusted: go/ssa, gsx, z3.",
+   ref="DESIGN.md §5 C24"),
  "C04": dict(
    text="Symbolic execution of the real NodeID.String / ParseNodeID / ParseExpandedNodeID / Equal (and the strconv, strings, base64, hex code they call) from go/ssa with namespace, numeric id and every identifier byte symbolic; each assertion is an SMT query (z3) over all values inside the stated identifier lengths, sat models are replayed natively.",
    note="Bounds: string ids <= 3 bytes quick / 6 thorough, opaque ids <= 3/6 bytes, GUID 16 symbolic bytes, all uint16 namespaces and uint32 numeric ids. fmt.Sprintf is modelled exactly for the verbs used (%d, %s, %0*X). Trusted: go/ssa, the gsx executor, z3.",
    ref="DESIGN.md §5 C04"),
 }
 NOT_APPLICABLE = {
+ "C25": "connection lifecycle under real TCP resets, server restarts and wall-clock outages: the quantified object is a fault sequence over the OS network stack and goroutine population, not a computation that can be encoded as solver queries within reach (DESIGN §6)",
+ "C36": "data-race freedom is defined over the Go memory model / race detector happens-before relation on real schedules; the symbolic executor has no encoding of either (DESIGN §6)",
+ "C37": "a finite matrix of real RSA/AES/x509/TCP executions; nothing in it is symbolic and with idealised crypto the result would say nothing about interoperability: enumeration of concrete runs is outside this technique (DESIGN §6)",
 }
 
 def main():
